@@ -313,6 +313,9 @@ impl OsIpcOneShotServer {
             .unwrap()
             .clone();
         record.accept();
+        // Release our clone of the record (it holds a sender), so that a client
+        // which goes away without sending is seen as a closed channel below.
+        drop(record);
         ONE_SHOT_SERVERS.lock().unwrap().remove(&self.name).unwrap();
         let (data, channels, shmems) = self.receiver.recv()?;
         Ok((self.receiver, data, channels, shmems))
